@@ -74,6 +74,16 @@ class SSHSOCKSForwarder(SSHLocalForwarder):
         self._recv_handler = None
         super().close()
 
+    def eof_received(self) -> bool:
+        """Handle an incoming end of file from the SOCKS client"""
+
+        if self._recv_handler:
+            # The client went away before completing its request
+            self.close()
+            return False
+
+        return super().eof_received()
+
     def _connect(self) -> None:
         """Send request to open a new tunnel connection"""
 
